@@ -709,6 +709,30 @@ func (g *gen) ioBindStmt() {
 	if tv.width == 64 {
 		nbytes = []int{1, 2, 4, 5, 7, 8}[g.draw(0, 5, "bindn64")]
 	}
+	// prefer the shape where an inner binding to a LARGER array proves a length the outer one does not have
+	innerIdx := -1
+	if len(bytes) > 1 && g.chance(50, "bindinner") {
+		small, large := 0, 0
+		for i, ar := range bytes {
+			if ar.n < bytes[small].n {
+				small = i
+			}
+			if ar.n > bytes[large].n {
+				large = i
+			}
+		}
+		if bytes[small].n < bytes[large].n && g.chance(70, "bindadversarial") {
+			outer, innerIdx = bytes[small], large
+			for _, k := range []int{8, 7, 5, 4, 3, 2} {
+				if k > outer.n && k <= bytes[large].n && (k <= 4 || tv.width == 64) && k != 6 {
+					nbytes = k
+					break
+				}
+			}
+		} else {
+			innerIdx = g.draw(0, len(bytes)-1, "bindinnerarr")
+		}
+	}
 	peek := fmt.Sprintf("r.peek_u%d%s_as_u%d()", 8*nbytes, []string{"le", "be"}[g.draw(0, 1, "bindend")], tv.width)
 	if nbytes == 1 {
 		peek = fmt.Sprintf("r.peek_u8_as_u%d()", tv.width)
@@ -718,8 +742,8 @@ func (g *gen) ioBindStmt() {
 	g.line("io_bind (io: r, data: %s[..], history_position: 0) {", outer.name)
 	g.depth++
 	leaked := false
-	if len(bytes) > 1 && g.chance(50, "bindinner") {
-		inner := bytes[g.draw(0, len(bytes)-1, "bindinnerarr")]
+	if innerIdx >= 0 {
+		inner := bytes[innerIdx]
 		g.line("io_bind (io: r, data: %s[..], history_position: 0) {", inner.name)
 		g.depth++
 		g.line("if r.length() < %d {", nbytes)
